@@ -425,12 +425,14 @@ func runProperty(w *World, res *checkResult, thorough bool, timeoutMs int) {
 		}
 		var decl []string
 		for _, gd := range w.cs.Guards {
-			decl = append(decl, gd.Kind+" "+strings.Join(gd.Fields, ", ")+func() string {
-				if gd.By != "" {
-					return " by " + gd.By
-				}
-				return ""
-			}())
+			d := gd.Kind + " " + strings.Join(gd.Fields, ", ")
+			if gd.By != "" {
+				d += " by " + gd.By
+			}
+			if gd.Why != "" {
+				d += " because " + gd.Why
+			}
+			decl = append(decl, shortKey(d))
 		}
 		res.Lockset = map[string]interface{}{"functions_with_guarded_accesses": len(fnset), "access_obligations": len(lo), "declarations": decl}
 	}
